@@ -82,9 +82,11 @@ type sysBroker struct {
 	conn net.Conn
 	wmu  sync.Mutex
 	subs map[string]byte
-	recv []string // PUBLISHes received, in order
-	mid  uint16
-	sent int
+	// QoS 2 messages waiting for their PUBREL
+	parked map[uint16][2]string
+	recv   []string // PUBLISHes received, in order
+	mid    uint16
+	sent   int
 }
 
 func newSysBroker() *sysBroker {
@@ -92,7 +94,7 @@ func newSysBroker() *sysBroker {
 	if err != nil {
 		panic(err)
 	}
-	b := &sysBroker{ln: ln, subs: map[string]byte{}}
+	b := &sysBroker{ln: ln, subs: map[string]byte{}, parked: map[uint16][2]string{}}
 	go func() {
 		for {
 			c, err := ln.Accept()
@@ -213,22 +215,17 @@ func (b *sysBroker) serve(c net.Conn) {
 	}
 }
 
-var sysPending = struct {
-	sync.Mutex
-	m map[uint16][2]string
-}{m: map[uint16][2]string{}}
-
 func (b *sysBroker) pending(mid uint16, topic string, payload []byte) {
-	sysPending.Lock()
-	sysPending.m[mid] = [2]string{topic, string(payload)}
-	sysPending.Unlock()
+	b.mu.Lock()
+	b.parked[mid] = [2]string{topic, string(payload)}
+	b.mu.Unlock()
 }
 
 func (b *sysBroker) takePending(mid uint16) (string, []byte, bool) {
-	sysPending.Lock()
-	defer sysPending.Unlock()
-	v, ok := sysPending.m[mid]
-	delete(sysPending.m, mid)
+	b.mu.Lock()
+	defer b.mu.Unlock()
+	v, ok := b.parked[mid]
+	delete(b.parked, mid)
 	return v[0], []byte(v[1]), ok
 }
 
@@ -388,7 +385,18 @@ func sysRunCase(c *sysCase) []string {
 		}
 		time.Sleep(40 * time.Millisecond) // handler goroutines and the loop-back of own messages settle
 	}
-	time.Sleep(150 * time.Millisecond)
+	// everything still on its way settles: wait until nothing new has been logged for a while
+	for last, quiet := -1, 0; quiet < 4; {
+		time.Sleep(50 * time.Millisecond)
+		mu.Lock()
+		n := len(out)
+		mu.Unlock()
+		if n == last {
+			quiet++
+		} else {
+			last, quiet = n, 0
+		}
+	}
 	cl.Close()
 	br.mu.Lock()
 	for _, r := range br.recv {
